@@ -29,7 +29,7 @@ ASSUMES = ["residuals are arbitrary reals (ties allowed in the calib cases, dist
            "split-conformal argument and is NOT machine-checked"]
 OUTSIDE = ["n_cal above the bound; alpha off the listed grid (alpha enters through float alpha*(1+1/n_cal) and numpy's interpolation, "
            "both concrete per case)", "feature sets other than none / two continuous features"]
-BOUNDS = {"quick": "calib: (alpha, n) in {(0.5, 3..5), (0.6, 4..5)} i.e. n_cal = 2..4, robust on/off, 2 nonreporting units, no features and "
+BOUNDS = {"quick": "calib: (alpha, n) in {(0.5, 3..5), (0.6, 4..5)} i.e. n_cal = 2..4, robust on/off, 2 nonreporting units (also with frames whose row labels are not 0..m-1), no features and "
                    "2 (concrete) features; coverage: pools of n_cal + 1 = 3..4 units, alpha in {0.5, 0.6}",
           "thorough": "calib adds (0.5, 6), (0.7, 6) i.e. n_cal up to 5; coverage: pool of 5"}
 OPTS = {"quick": dict(case_timeout_s=900, solver_timeout_ms=60000), "thorough": dict(case_timeout_s=3300, solver_timeout_ms=120000)}
@@ -48,6 +48,11 @@ def cases(tier):
         for robust in (False, True):
             out.append(dict(name="calib_a%s_n%d_%s" % (alpha, n, "robust" if robust else "plain"), kind="calib", alpha=alpha, n=n,
                             robust=robust, features=[], weight=n * n))
+    # the frame of outstanding units keeps the row labels of the frame it was filtered from (not 0..m-1, not ascending): bounds are
+    # paired with units by position
+    for robust in (False, True):
+        out.append(dict(name="calib_a0.5_n4_%s_oddindex" % ("robust" if robust else "plain"), kind="calib", alpha=0.5, n=4,
+                        robust=robust, features=[], non_index=[7, 3], rep_index=[9, 1, 4, 0], weight=16))
     out.append(dict(name="calib_features_a0.5_n4", kind="calib", alpha=0.5, n=4, robust=False, features=["f1", "f2"], weight=8))
     out.append(dict(name="calib_features_a0.5_n5_robust", kind="calib", alpha=0.5, n=5, robust=True, features=["f1", "f2"], weight=8))
     for alpha, m in ((0.5, 2), (0.5, 3), (0.6, 3)) + (((0.5, 4), (0.7, 4)) if tier == "thorough" else ()):
@@ -133,6 +138,10 @@ def run_calib(ctx, case):
     # feature values are concrete (the regression is an uninterpreted function of them anyway)
     fvals = {f: [float((7 * i + 3 * k_) % 11 - 5) for i in range(n + nn)] for k_, f in enumerate(feats)}
     rep, non = frames(ctx, n, nn, feats, resid, base, nres, nbase, fvals)
+    if case.get("non_index"):
+        non.index = case["non_index"]
+    if case.get("rep_index"):
+        rep.index = case["rep_index"]
     m = NP({"features": feats, "robust": case["robust"]})
     m.n_train = n
     qr = stubs.QRStub(mode="uf").install()
